@@ -128,7 +128,8 @@ def _dense_hds(rng, version: int, ncl: int, ms: int, tag: int):
     sig = whds.SIG_V1 if version == 1 else whds.SIG_V2
     hdr = sig + struct.pack("<IIIII", 2, 16, 1024, ms, ncl)
     hdr += struct.pack("<II", size // SECTOR, 0) if version == 1 else struct.pack("<Q", size // SECTOR)
-    hdr += struct.pack("<IIIQ", 0, first * ms, 0, 0)
+    # an image that was not closed cleanly carries the in-use mark; it is read like any other
+    hdr += struct.pack("<IIIQ", rng.choice([0, 0x746F6E59, 0x746F6E59]), first * ms, 0, 0)
     sf = SparseFile()
     sf.put(0, hdr + struct.pack(f"<{ncl}I", *bat))
     sf.put(first * cs, PatternGen(layer, 0, head * ms))
@@ -309,7 +310,7 @@ def build(fmt: str, rng):
         from dissect.hypervisor.disk.vhd import VHD
 
         nsec = (2040 << 30) // SECTOR - rng.randrange(0, 1000)
-        sf, layer, meta = wvhd.build_fixed(rng, nsectors=nsec, legacy=rng.random() < 0.5, tag=tag)
+        sf, layer, meta = wvhd.build_fixed(rng, nsectors=nsec, legacy=rng.random() < 0.5, tag=tag, creator=rng.choice([None, b"vpc ", b"vpc ", b"win "]))
         info = {"size": meta["size"], "metadata_bytes": 1024, "unit": SECTOR, "hot": [0, 1 << 32, 1 << 40, meta["size"] - 3000], "max_off": sf.end}
         return (lambda fh: VHD(fh)), sf, Model(meta["size"], [layer]), info
     if fmt == "vhd-dyn":
@@ -326,7 +327,7 @@ def build(fmt: str, rng):
         sf, layer, meta = wvhd.build_dynamic(rng, block_size=bs, nblocks=n, states=states, placement="shuffle", tag=tag,
                                              tail_cut_sectors=rng.choice([0, rng.randrange(0, 4096)]), far_sector=0xFFFFFFFF - 70 * 4200,
                                              # the dynamic header (and with it the table) may itself sit beyond 4 GiB
-                                             header_off=rng.choice([512, 6 << 30, (1 << 40) + 512]))
+                                             header_off=rng.choice([512, 6 << 30, (1 << 40) + 512]), creator=rng.choice([None, b"vpc ", b"vpc ", b"win "]))
         info = {"size": meta["size"], "metadata_bytes": meta["metadata_bytes"], "unit": bs, "hot": [b * bs for b in sorted(hot_b)], "max_off": sf.end}
         return (lambda fh: VHD(fh)), sf, Model(meta["size"], [layer]), info
     if fmt == "vdi":
